@@ -238,6 +238,39 @@ pub fn check_code(code: &[u8], limit: usize, iterations: usize) -> Result<Option
     }
 }
 
+/// Every value-building opcode with a composite (3-node) operand in each operand position in turn and in all of
+/// them, so that every arm of the size bookkeeping is exercised with operands that are not single nodes.
+fn operand_position_programs() -> Vec<(String, Vec<u8>)> {
+    let ops: Vec<(u8, usize)> = vec![
+        (0x01, 2), (0x02, 2), (0x03, 2), (0x04, 2), (0x05, 2), (0x06, 2), (0x07, 2), (0x08, 3), (0x09, 3), (0x0a, 2), (0x0b, 2),
+        (0x10, 2), (0x11, 2), (0x12, 2), (0x13, 2), (0x14, 2), (0x15, 1), (0x16, 2), (0x17, 2), (0x18, 2), (0x19, 1), (0x1a, 2),
+        (0x1b, 2), (0x1c, 2), (0x1d, 2), (0x20, 2), (0x31, 1), (0x35, 1), (0x37, 3), (0x39, 3), (0x3b, 1), (0x3c, 4), (0x3e, 3),
+        (0x3f, 1), (0x40, 1), (0x51, 1), (0x52, 2), (0x53, 2), (0x54, 1), (0x55, 2), (0xa0, 2), (0xa1, 3), (0xa2, 4), (0xa3, 5),
+        (0xa4, 6), (0xf0, 3), (0xf1, 7), (0xf2, 7), (0xf3, 2), (0xf4, 6), (0xf5, 4), (0xfa, 6), (0xfd, 2), (0xff, 1), (0x57, 2),
+    ];
+    let simple = vec![op::CALLVALUE];
+    let composite = vec![op::CALLVALUE, op::CALLVALUE, op::ADD];
+    let mut out = Vec::new();
+    for (opc, k) in ops {
+        for which in 0..=k {
+            // `which == k`: every operand composite; else only operand `which` (0 = first popped)
+            let mut code = Vec::new();
+            for pos in (0..k).rev() {
+                if which == k || pos == which {
+                    code.extend(&composite);
+                } else {
+                    code.extend(&simple);
+                }
+            }
+            code.push(opc);
+            // read back what a memory-writing instruction stored, and keep the result in storage too
+            code.extend([op::PUSH0, op::MLOAD, op::PUSH0, op::SSTORE]);
+            out.push((format!("opcode {opc:#04x} with composite operand {which} of {k}"), code));
+        }
+    }
+    out
+}
+
 pub struct C18;
 
 fn limits(tier: Tier) -> Vec<usize> {
@@ -264,10 +297,55 @@ impl Check for C18 {
         "exploration"
     }
     fn chunks(&self, _tier: Tier) -> usize {
-        seq_chunks(alphabet().len())
+        seq_chunks(alphabet().len()) + 2
     }
     fn run_chunk(&self, tier: Tier, chunk: usize, ctx: &mut Ctx) {
         let alpha = alphabet();
+        let extra = seq_chunks(alpha.len());
+        if chunk >= extra {
+            let programs: Vec<(String, Vec<u8>)> = if chunk == extra {
+                operand_position_programs()
+            } else {
+                // solc-idiom programs: the lifted node kinds (mapping / array index, sub-word, shifted, packed, slot)
+                let mut v = Vec::new();
+                for kind in crate::c04::basic_kinds().into_iter().chain(crate::c04::representative_kinds()) {
+                    for (mi, mode) in [crate::idioms::Mode::Read, crate::idioms::Mode::Both, crate::idioms::Mode::WriteAll].into_iter().enumerate() {
+                        let case = crate::c04::Case {
+                            vars: vec![(
+                                crate::idioms::Var {
+                                    slot: U::from_u64(5),
+                                    kind: kind.clone(),
+                                },
+                                mode,
+                            )],
+                            spelling: mi,
+                        };
+                        v.push((format!("idiom {kind:?} {mode:?}"), crate::c04::build(&case)));
+                    }
+                }
+                v
+            };
+            for (desc, code) in programs {
+                for limit in [2usize, 4, 6, 250] {
+                    ctx.case(|| json!({"bytes": hex(&code), "limit": limit, "iterations": 1}));
+                    ctx.count("evaluations", 1);
+                    ctx.count(if chunk == extra { "operand_position_runs" } else { "idiom_program_runs" }, 1);
+                    match check_code(&code, limit, 1) {
+                        Ok(Some(f)) => {
+                            ctx.distinct("nontrivial", crate::util::h64(&(&code, limit, 1usize)));
+                            let _ = f;
+                        }
+                        Ok(None) => ctx.count("skipped_other_property", 1),
+                        Err(v) => ctx.violation(
+                            v.key,
+                            format!("{} [{desc} = {}]", v.what, hex(&code)),
+                            json!({"bytes": hex(&code), "limit": limit, "iterations": 1}),
+                        ),
+                    }
+                }
+            }
+            return;
+        }
         run_seq_chunk(alpha.len(), max_len(tier), chunk, &mut |ix| {
             let seq: Vec<Tk> = ix.iter().map(|i| alpha[*i]).collect();
             let mut depth = 0usize;
@@ -308,7 +386,9 @@ impl Check for C18 {
         let rule = format!(
             "all stack-safe token sequences <= {} over 13 value-growing tokens (CALLVALUE, CALLDATALOAD, DUP1, ADD, MUL, hash of the \
              top of stack, SLOAD/SSTORE of slot 0, MSTORE/MLOAD at 0, JUMPDEST, conditional jump back to the first JUMPDEST, PUSH 1) x \
-             value size limits {:?} x iteration limits {{1, 3}} for looping programs. For every stored state: every stack item, memory \
+             value size limits {:?} x iteration limits {{1, 3}} for looping programs; every value-building opcode (55) with a 3-node \
+             operand in each operand position in turn and in all positions, and 219 solc-idiom programs (all lifted node kinds), under \
+             limits 2, 4, 6, 250. For every stored state: every stack item, memory \
              content/offset, storage key/written value, recorded and logged value has <= limit nodes, and every node of every value \
              (also of the exported view, after lifting, and after constant folding) reports size() = its recursive node count. \
              non-trivial = a run in which some value was actually culled; distinct by (program, limit, iterations)",
